@@ -21,6 +21,10 @@ struct Verdict {
   u64 outhash = 1469598103934665603ull;  // digest of every canonical output of the case
   void out(u64 x) { outhash = (outhash ^ x) * 1099511628211ull; outhash ^= outhash >> 31; }
   void out(const Mat &A) { out(A.hash()); }
+  // digest of everything the call wrote, including outputs that are valid in more than one form (full permutation arrays,
+  // the raw overwritten storage): compared only between executions of the same case in the same build (C10)
+  u64 rawhash = 1469598103934665603ull;
+  void raw(u64 x) { rawhash = (rawhash ^ x) * 1099511628211ull; rawhash ^= rawhash >> 29; }
   void fail(const std::string &m) {
     if (ok) {
       ok = false;
